@@ -270,7 +270,12 @@ func Run(j *job.Job, s *job.Sink) {
 					continue
 				case tpl == 3 && !targeted[t.name] && (t.kind == "leaf" || t.kind == "leaf-list"):
 					targeted[t.name] = true
-					fmt.Fprintf(devText, "  deviation %s { deviate replace { type bb:nosuchtype; } }\n", t.devPath())
+					// replacement types that do not resolve, most of them in ways that still
+					// leave a half-built type behind (a known base with a bad restriction, a
+					// union with one good member ...)
+					bt := []string{"bb:nosuchtype", "union { type string; type nosuchmember; }", "decimal64", "uint8 { range \"1..300\"; }", "string { length \"5..2\"; }", "identityref",
+						"enumeration { enum a { value 1; } enum b { value 1; } }", "bits { bit p { position 4294967296; } }", "int8 { range \"a..b\"; }", "union { type uint8 { range \"0..256\"; } }", "d:alsonot"}[r.Intn(11)]
+					fmt.Fprintf(devText, "  deviation %s { deviate replace { type %s%s } }\n", t.devPath(), bt, map[bool]string{true: "", false: ";"}[strings.HasSuffix(bt, "}")])
 					wantErr = "unresolvable-type"
 					continue
 				}
@@ -497,6 +502,42 @@ func Run(j *job.Job, s *job.Sink) {
 			texts[0].WriteString(strings.Replace(cur, "prefix d;", "prefix d; revision 2021-01-01;", 1))
 		}
 
+		// One case in four keeps the deviations of module d in a submodule: included by the
+		// module itself, or only by another submodule of it, or by both. Deviations count
+		// wherever they are written.
+		var subTexts [][2]string
+		if olderRev == "" && r.Intn(4) == 0 {
+			full := texts[0].String()
+			nl := strings.Index(full, "\n")
+			header, body := full[:nl+1], strings.TrimSuffix(full[nl+1:], "}\n")
+			sub := func(name, inc, body string) [2]string {
+				return [2]string{name + ".yang", fmt.Sprintf("submodule %s { yang-version 1.1; belongs-to d { prefix d; } import b { prefix bb; } import a { prefix aa; } %s\n%s}\n", name, inc, body)}
+			}
+			incl := "  include ds1;\n"
+			switch r.Intn(3) {
+			case 0:
+				subTexts = append(subTexts, sub("ds1", "", body))
+			case 1:
+				subTexts = append(subTexts, sub("ds1", "include ds2;", ""), sub("ds2", "", body))
+			default:
+				incl += "  include ds2;\n"
+				subTexts = append(subTexts, sub("ds1", "include ds2;", ""), sub("ds2", "", body))
+			}
+			texts[0].Reset()
+			texts[0].WriteString(header + incl + "}\n")
+			r.Shuffle(len(subTexts), func(a, b int) { subTexts[a], subTexts[b] = subTexts[b], subTexts[a] })
+			s.Count("cases_with_deviations_in_a_submodule", 1)
+		}
+		allDev = func() string {
+			out := ""
+			for mi := range texts {
+				out += texts[mi].String()
+			}
+			for _, st := range subTexts {
+				out += st[1]
+			}
+			return out
+		}
 		caseDesc = map[string]string{"b.yang": base.String(), "a.yang": augText.String(), "d.yang+e.yang": allDev(), "d@2019-01-01.yang": olderRev, "ignore_not_supported_option": fmt.Sprint(ignoreNS)}
 		for _, blk := range strings.Split(allDev(), "deviation ")[1:] {
 			kinds := map[string]bool{}
@@ -533,6 +574,11 @@ func Run(j *job.Job, s *job.Sink) {
 				}
 				if olderRev != "" {
 					if err := ms.Parse(olderRev, "d@2019-01-01.yang"); err != nil {
+						return ms, []error{err}
+					}
+				}
+				for _, st := range subTexts {
+					if err := ms.Parse(st[1], st[0]); err != nil {
 						return ms, []error{err}
 					}
 				}
